@@ -433,6 +433,20 @@ def rule_unique(ctx, rep, rid):
             hit, _ = a.reach([a.blocks[s].insts[0]], cx, include_start=True)
             rep.check(hit is None, rid, "add.dup-found-no-write", "when a duplicate is found the function returns without modifying the table",
                       "table modified although a duplicate was found", [t.where()])
+    # no duplicate found => the node is inserted right here, at the head of the equal-hash run (in front of the node the search
+    # started from), without walking further: every reader that was already handed a node of that key and walks on can then
+    # only meet the new node *behind* its position if ... it cannot - the new node is in front.  Falling back into the walk
+    # inserts at the tail of the run: a reader holding the old node of a key deleted and re-added meanwhile sees two nodes of that key.
+    notfound = [(t, s_) for t, s_, at in pat.branch_edges_on(a, lambda at: at[0] == "eq" and at[2] == ("c", 0) and at[1][0] == "load" and at[1][1].endswith("cds_lfht_iter.node"))]
+    pat.require(notfound, "add: duplicate-not-found edge")
+    ins = [e.inst for e in pat.accesses(a, NEXT, ("cmpxchg",))]
+    adv = [l for l in pat.loads(a, NEXT) if any(l.blk.id in c for c in a.sccs())]
+    for t, s_ in notfound:
+        # the next ->next load of the walk (advancing the cursor) must not be reachable before an insertion cmpxchg
+        hit, _ = a.reach([a.blocks[s_].insts[0]], adv, avoid=lambda i: i in ins, include_start=True)
+        rep.check(hit is None, rid, "add.dup-miss-inserts-here", "when no duplicate is found the node is inserted at the head of the equal-hash run (no further walking)",
+                  "after a failed duplicate search the walk continues before inserting: the node lands behind other nodes of the run, so a traversal that already returned "
+                  "an (since deleted) node of this key can meet the re-added one as well", [t.where()])
     # the search examines every node of the chain: see C05.filter for next_duplicate
     for name in ("cds_lfht_add_unique", "cds_lfht_add_replace"):
         g = fn(ctx, name)
@@ -683,6 +697,29 @@ def rule_emptywalk(ctx, rep, rid):
                                avoid=lambda i, L=L: i is L, what="every next word loaded by the emptiness walk is tested for BUCKET before the walk concludes")
 
 
+def rule_wqguard(ctx, rep, rid):
+    """Work for the resize worker is queued only on behalf of AUTO_RESIZE tables: cds_lfht_new creates the work queue (and its
+    thread) only for them.  In every exported operation, each (inlined) path to urcu_workqueue_queue_work is dominated by
+    `flags & CDS_LFHT_AUTO_RESIZE`; for a table with ACCOUNTING but without AUTO_RESIZE the counter-driven path would otherwise
+    dereference a NULL work queue, or resize a fixed-size table behind the caller's back."""
+    m = ctx.mod("cds", "flat")
+    n = 0
+    for f in m.defined():
+        q = pat.calls_opt(f, "urcu_workqueue_queue_work")
+        for c in q:
+            wq = ir.expr(f, c.args[0], 3)
+            if not (wq[0] == "load" and wq[1] == "@cds_lfht_workqueue"):
+                continue
+            n += 1
+            rep.touch(f)
+            lv = pat.dom_leaf_atoms(f, c)
+            ok = any(a[0] == "ne" and a[2] == ("c", 0) and a[1][0] == "bin" and a[1][1] == "and" and a[1][3] == ("c", 1) and a[1][2][0] == "load" and a[1][2][1].endswith("cds_lfht.flags") for a in lv)
+            rep.check(ok, rid, "%s@%s:%d" % (f.name, c.origin_fn, c.line), "work queued only under flags & AUTO_RESIZE",
+                      "%s can queue work for the resize worker without having tested CDS_LFHT_AUTO_RESIZE (path through %s): the work queue does not exist for such tables" % (f.name, " <- ".join(c.scope_chain[:4])),
+                      [c.where()])
+    pat.require(n >= 4, "only %d queue_work sites on cds_lfht_workqueue" % n)
+
+
 def rule_destroy(ctx, rep, rid):
     d = fn(ctx, "cds_lfht_delete_bucket")
     rep.touch(d)
@@ -859,6 +896,35 @@ def rule_mm(ctx, rep, rid):
                             import re as _re
                             out.add(_re.sub(r"#\d+", "", ir.expr_str(ir.expr(f, bi.args[-1], 6))))
             return out
+        # allocation is unconditional within each `order` case: whatever free_bucket_table releases for an order,
+        # alloc_bucket_table allocates afresh on *every* path of that case (no "already there, keep it" shortcut: free does not
+        # clear the slot, so a stale pointer from a previous shrink would be reused after it was handed back to the allocator)
+        def is_alloc(i):
+            if i.op == "icall":
+                e = ir.expr(af, i.d["fp"])
+                return e[0] == "load" and (e[1].endswith("cds_lfht_alloc.calloc") or e[1].endswith("cds_lfht_alloc.malloc") or e[1].endswith("cds_lfht_alloc.aligned_alloc"))
+            return i.op == "call" and i.callee in ("mmap", "mprotect", "calloc", "malloc", "memory_map", "memory_populate")
+        allocs = [i for i in af.all_insts() if is_alloc(i)]
+        if allocs:
+            loops = af.sccs()
+            ablocks = set(i.blk.id for i in allocs)
+            for comp in loops:
+                if comp & ablocks:
+                    ablocks |= comp
+            def order_sig(path):
+                sig = []
+                for a_, b_ in zip(path, path[1:]):
+                    for a in ir.edge_atoms(af, a_, b_):
+                        if a[0] in ("eq", "ne", "ule", "ugt", "ult", "uge") and (a[1] == ("arg", 1) or a[2] == ("arg", 1)):
+                            sig.append(ir.atom_str(a))
+                return tuple(sig)
+            by_sig = {}
+            for pth in paths.enum_paths(af, 0, limit=256):
+                by_sig.setdefault(order_sig(pth), []).append(any(b in ablocks for b in pth))
+            mixed = [sg for sg, v in by_sig.items() if any(v) and not all(v)]
+            rep.check(not mixed, rid, gname + ".alloc-unconditional", "within each case of `order`, alloc_bucket_table allocates on every path (%d cases)" % len(by_sig),
+                      "alloc_bucket_table skips the allocation on some path of case %s although free_bucket_table releases that level: after a shrink the stale slot is reused "
+                      "(use after free, then double free)" % (list(mixed[0]) if mixed else ""), [allocs[0].where()])
         ia, if_ = slots_idx(af, ("store",)), slots_idx(ff, ("load",))
         if ia or if_:
             rep.check(ia == if_ or not if_ or if_ <= ia, rid, gname + ".same-slots", "free reads the slots alloc wrote: %s" % sorted(ia),
